@@ -201,6 +201,33 @@ def sum_terms(body, op, depth=0):
     return None
 
 
+def const_int(body, op, depth=0):
+    """integer value of an operand that is a constant or constant arithmetic (`LIMIT + 1`), else None"""
+    k = mir.resolve_const(body, op)
+    if k is not None:
+        return k.get("v") if isinstance(k.get("v"), int) and not isinstance(k.get("v"), bool) else None
+    if depth > 4:
+        return None
+    o = mir.origin(body, op)
+    rv = None
+    if o[0] == "place" and len(o[1][1]) == 1 and isinstance(o[1][1][0], list) and o[1][1][0][0] == "." and o[1][1][0][1] == 0:
+        d = mir.single_def(body, o[1][0])
+        if d and d[0] == "assign" and d[4][0] == "bin":
+            rv = d[4]
+    elif o[0] == "rv" and o[1][0] == "bin":
+        rv = o[1]
+    if rv is None:
+        return None
+    a, b = const_int(body, rv[2], depth + 1), const_int(body, rv[3], depth + 1)
+    if a is None or b is None:
+        return None
+    if rv[1] in ("Add", "AddWithOverflow"):
+        return a + b
+    if rv[1] in ("Sub", "SubWithOverflow"):
+        return a - b
+    return None
+
+
 def high_edge(op, var_left, n, tt, ft):
     """for `var op n` (or `n op var`): (target taken for large var, smallest var taking it)"""
     if not var_left:
@@ -364,11 +391,11 @@ def check_limits(ctx, f, tag, counters, check_id):
     seen = {}
     for sb, op, l, r, tt, ft, ln in mir.cmp_switches(chk):
         where = "%s:%d" % (chk.file, ln)
-        kl, kr = mir.resolve_const(chk, l), mir.resolve_const(chk, r)
-        if kr is not None and isinstance(kr.get("v"), int) and kl is None:
-            var, n, left = l, kr["v"], True
-        elif kl is not None and isinstance(kl.get("v"), int) and kr is None:
-            var, n, left = r, kl["v"], False
+        kl, kr = const_int(chk, l), const_int(chk, r)
+        if kr is not None and kl is None:
+            var, n, left = l, kr, True
+        elif kl is not None and kr is None:
+            var, n, left = r, kl, False
         else:
             ctx.ob("D-LIMITS", tag + "comparison-shape", False, "comparison in check is not `counter-expression <op> constant`", where)
             continue
@@ -894,17 +921,27 @@ def check_engines(ctx, f, tag, methods, features):
         can_reach.add(x)
         work.extend(rev.get(x, ()))
     n_serde = 0
+    reent = []
     for b in f.all_bodies():
         t = b.d.get("impl_trait") or ""
         if b.id == b.root and (t.startswith("serde_core::") or t.startswith("serde::")):
             n_serde += 1
             if b.id in can_reach:
-                tgt = sorted(z for z in zero_ctors if cg.path(b.id, z))[:1]
-                ctx.ob("P-ROOT", tag + "reenters:" + fkey(f, b), False,
-                       "serde impl can reach a zero-depth constructor: %s" % (cg.path(b.id, tgt[0]) if tgt else "?"), b.where)
-    ctx.ob("P-ROOT", tag + "no-reentry", not any(b.id in can_reach for b in f.all_bodies()
-                                                  if b.id == b.root and ((b.d.get("impl_trait") or "").startswith("serde_core::"))),
-           "none of the %d workspace impls of serde traits can reach a zero-depth constructor" % n_serde, "-")
+                reent.append(b)
+    detail = "none of the %d workspace impls of serde traits can reach a zero-depth constructor" % n_serde
+    where = "-"
+    if reent:
+        # show the shortest witness
+        best = None
+        for b in reent[:60]:
+            for z in zero_ctors:
+                pth = cg.path(b.id, z)
+                if pth and (best is None or len(pth) < len(best)):
+                    best = pth
+        detail = "%d impls of serde traits can reach a zero-depth constructor (depth reset mid-stream), e.g. %s" % (
+            len(reent), " -> ".join(re.sub(r"<[^<>]*>", "", x) for x in (best or [])))
+        where = reent[0].where
+    ctx.ob("P-ROOT", tag + "no-reentry", not reent, detail, where)
     ctx.floor("P-ROOT", tag + "serde trait impl methods examined", n_serde, 100)
 
 
